@@ -6,7 +6,7 @@ Refine/ItsLemmas.lean — helper definitions and lemmas for task RP24 (property 
   slice `[1:]`, the element-wise logarithm oracle and the masked division — together one element-wise function `entry`;
 * the arithmetic of one entry over ℚ (sign of the real part of `-τ / (a + i b)`);
 * the public function: the two argument checks, and the loop `for idx, lagtime in enumerate(lagtimes): impl_timescales[idx] = …` on the
-  zero-initialised `len(lagtimes) × ntimescales` array, as a `mapM` over the lag times.
+  zero-initialised `len(lagtimes) × ntimescales` array (`np.zeros`: a negative `ntimescales` is a `ValueError`), as a `mapM` over the lag times.
 
 The theorems with docstrings are in `Refine/Its.lean`.
 -/
@@ -307,6 +307,7 @@ theorem api_unfold (est : Int → Py ((List (List Rat)) × (List Int))) (log : L
     Gen.MsmIts.implied_timescales_n est log eig argsort nstates lags nts rev =
       if npAll1 (lags.map (fun x_ => decide (x_ > (0 : Int)))) = false then .error .type
       else if rev = true then .error .notImplemented
+      else if nts < 0 then .error .value
       else apiLoop est log eig argsort lags nts := by
   unfold Gen.MsmIts.implied_timescales_n
   dsimp only
@@ -317,8 +318,14 @@ theorem api_unfold (est : Int → Py ((List (List Rat)) × (List Int))) (log : L
     | true => rfl
     | false =>
       simp only [Bool.not_true, Bool.false_eq_true, if_false]
-      unfold apiLoop
-      exact bind_pure _
+      unfold npZeros2 pyLen
+      by_cases hn : nts < 0
+      · rw [if_pos hn, if_pos (Or.inr hn)]
+        rfl
+      · rw [if_neg hn, if_neg (by omega)]
+        unfold apiLoop pyLen
+        rw [if_neg Bool.noConfusion]
+        exact bind_pure (m := Py) _
 
 /-- the row-assignment loop over `enumerate(xs)`, started at row `pre.length` of an array whose remaining rows are still the initial
 `r0`: the rows are produced in order; a row of the wrong length is a `ValueError` -/
